@@ -609,8 +609,10 @@ class LeafMatcher(Matcher):
         elif self.supports("positions"):
             return [Span(pos) for pos in self.value_as("positions")]
         else:
-            raise Exception("Field does not support positions (%r)"
-                            % self.term())
+            from whoosh.query.qcore import QueryError
+
+            raise QueryError("Field does not support positions (%r)"
+                             % (self.term(),))
 
     def supports_block_quality(self):
         return self.scorer and self.scorer.supports_block_quality()
